@@ -196,3 +196,7 @@ Definition late (st : cl_state) : nat * nat :=
   | Some (a, b) => (length (s_in (side0 st)) - a, length (s_in (side1 st)) - b)
   | None => (0, 0)
   end.
+
+(* everything about a state except the two flags "shutdown was closed" and "closed by somebody else" *)
+Definition side_view (x : cl_side) := (s_reads x, s_writes x, s_out x, s_in x, s_closes x).
+Definition view (st : cl_state) := (side_view (side0 st), side_view (side1 st), dir0 st, dir1 st, mn st, at_ret st).
